@@ -7,59 +7,59 @@ HOOK_COMMITS = [l.strip() for l in open('/verif/hook_commits.txt')] if __import_
 
 CLAIMED = {
  "C01": dict(cat="exploration", sec="3 C01", engine="stream",
-   text="Seeded simulation of the byte stream under the real read_http_head / read_http_request (FixedBuf<64|256|8192>): grammar-derived and mutated heads, an exhaustive corpus of every string of <= 6 symbols over a reduced alphabet, every single (and, thorough, double) split point for short inputs, random partitions with spurious Pending otherwise, end of stream (EOF or error) after every prefix for short inputs; plus the same bytes through the real connection task in the simulated server with FIN/RST at an offset. Oracle: termination within a poll cap, no panic, documented error class, a position-of-first-CRLFCRLF consumption model, identical outcome and leftover under every partition (metamorphic), response-or-EOF and slot returned at connection level. Heads also contain long lines (40-200 bytes) with multi-byte UTF-8 sequences and stray high bytes at every alignment; read errors are drawn from 15 kinds.",
+   text="Seeded simulation of the byte stream under the real read_http_head / read_http_request (FixedBuf<64|256|8192>): grammar-derived and mutated heads, an exhaustive corpus of every string of <= 6 symbols over a reduced alphabet, every single (and, thorough, double) split point for short inputs, random partitions with spurious Pending otherwise, end of stream (EOF or error) after every prefix for short inputs; plus the same bytes through the real connection task in the simulated server with FIN/RST at an offset. Oracle: termination within a poll cap, no panic, documented error class, a position-of-first-CRLFCRLF consumption model, identical outcome and leftover under every partition (metamorphic), response-or-EOF and slot returned at connection level. Heads also contain long lines (40-200 bytes) with multi-byte UTF-8 sequences and stray high bytes at every alignment; read errors are drawn from 15 kinds. The mutator also plants the first bytes of other protocols (TLS ClientHello, HTTP/2 preface, SSH, SOCKS, PROXY).",
    note="Trusted: scripted reader, FixedBuf, the consumption model (about 20 lines), the simulated TCP for the connection level. Sampling beyond the exhaustive corpus/split stages.",
    technique="deterministic simulation of the read stream: enumerated + seeded partitions and end-of-stream points; metamorphic split-independence and consumption model"),
  "C03": dict(cat="exploration", sec="3 C03", engine="server",
-   text="Histories of 1-8 messages on one simulated connection to the real server; an independent framing model (a function of method, Content-Length multiset and Transfer-Encoding multiset) folds them into the exact handler log and responses; bodies are filled with decoy request heads so any mis-framing surfaces as a handler run attributable to body bytes. Delivery schedules (pipelined, ping-pong, byte-wise, random fragments, short reads) come from the seeded scheduler. A second stage drives HttpConn directly with ONE transient (EINTR-like) read error at every stream offset of a sized request + pipelined request: giving up and a correct retry are both accepted, a body of another length than Content-Length or a mis-placed next request is not.",
+   text="Histories of 1-8 messages on one simulated connection to the real server; an independent framing model (a function of method, Content-Length multiset and Transfer-Encoding multiset) folds them into the exact handler log and responses; bodies are filled with decoy request heads so any mis-framing surfaces as a handler run attributable to body bytes. Delivery schedules (pipelined, ping-pong, byte-wise, random fragments, short reads) come from the seeded scheduler. A second stage drives HttpConn directly with ONE transient (EINTR-like) read error at every stream offset of a sized request + pipelined request: giving up and a correct retry are both accepted, a body of another length than Content-Length or a mis-placed next request is not. One message in forty carries 100-140 other fields in front of its framing fields; Content-Length values with control bytes next to the digits.",
    note="Trusted: simulator seams, the framing model and connection model in harness/src/scen/{c03,httpgen}.rs. Combinations the statement does not pin are not generated.",
    technique="deterministic simulation: seeded delivery schedules over real server; independent framing reference model; decoy-based smuggling detector"),
  "C04": dict(cat="exploration", sec="3 C04", engine="server",
-   text="Seeded simulation of the real server (accept loop, token set, connection tasks, blocking-job wrapper) with 1-3 scripted clients per run sending 1-12 generated requests each, plus long-lived pipelined connections whose cumulative bytes pass the 8 KiB connection buffer several times; every interleaving choice comes from one PRNG. A sequential reference model of one connection decides the handler invocation log (count, order, pending flag, body bytes), the parsed client transcript and the close point. Bodies also straddle the 8 KiB connection buffer.",
+   text="Seeded simulation of the real server (accept loop, token set, connection tasks, blocking-job wrapper) with 1-3 scripted clients per run sending 1-12 generated requests each, plus long-lived pipelined connections whose cumulative bytes pass the 8 KiB connection buffer several times; every interleaving choice comes from one PRNG. A sequential reference model of one connection decides the handler invocation log (count, order, pending flag, body bytes), the parsed client transcript and the close point. Bodies also straddle the 8 KiB connection buffer. Half of the pipelining clients keep their side open until they have their answers; virtual time may pass at any scheduler step (a timer a change introduces can fire mid-exchange).",
    note="Trusted: the simulated TCP/executor/job seams (sim/sim-*), the strict response parser and the connection model in harness/src/scen/httpgen.rs. Handlers act only through their return value; unbounded blocking pool.",
    technique="deterministic simulation: seeded scheduler over real server tasks + simulated TCP; sequential reference model as oracle"),
  "C05": dict(cat="exploration", sec="3 C05", engine="conn",
-   text="HttpConn methods called directly over the simulated socket: EVERY program of depth <= 4 (quick) / <= 5 (thorough) over 15 operations x 13 client scripts, plus sampled programs of depth 1-7 under interleaved delivery where client bytes are fed only when a call waits and clients withhold the body until they see 100 Continue (a lost interim response is a stall verdict). An explicit-state reference model predicts result, both protocol states, is_ready(), write-side shutdown and the wire bytes after every call. 14 scripts incl. Expect + Connection: close; sampled programs also write a response whose file body is shorter than declared (failure after the head went out).",
+   text="HttpConn methods called directly over the simulated socket: EVERY program of depth <= 4 (quick) / <= 5 (thorough) over 15 operations x 13 client scripts, plus sampled programs of depth 1-7 under interleaved delivery where client bytes are fed only when a call waits and clients withhold the body until they see 100 Continue (a lost interim response is a stall verdict). An explicit-state reference model predicts result, both protocol states, is_ready(), write-side shutdown and the wire bytes after every call. 14 scripts incl. Expect + Connection: close; sampled programs also write a response whose file body is shorter than declared (failure after the head went out). Also a response whose body file does not exist.",
    note="Trusted: the reference model (written from the doc comments and the statement; cells the documentation leaves open are marked Free), simulated socket.",
    technique="deterministic simulation of the socket under enumerated + sampled API programs; explicit-state reference model checked call by call"),
  "C06": dict(cat="exploration", sec="3 C06", engine="stream",
-   text="write_http_response into a scripted sink whose every decision (bytes accepted per call, Pending, flush Pending) and the file reader's (short reads, Pending) come from the tape; responses generated over the whole input class incl. colliding framing names once and twice and bodies around 64 KiB..3 MiB. An independent strict response parser must recover status, application fields in order and body; automatic-field and refusal rules; byte-identical output under a second sink schedule (metamorphic). File bodies are in a quarter of the runs longer on disk than their recorded length; event streams mix chunk sizes of 1-4 hex digits; one small run in ten has a single transient Interrupted error in the sink (a serialiser that reports success must then have produced exactly the right bytes).",
+   text="write_http_response into a scripted sink whose every decision (bytes accepted per call, Pending, flush Pending) and the file reader's (short reads, Pending) come from the tape; responses generated over the whole input class incl. colliding framing names once and twice and bodies around 64 KiB..3 MiB. An independent strict response parser must recover status, application fields in order and body; automatic-field and refusal rules; byte-identical output under a second sink schedule (metamorphic). File bodies are in a quarter of the runs longer on disk than their recorded length; event streams mix chunk sizes of 1-4 hex digits; one small run in ten has a single transient Interrupted error in the sink (a serialiser that reports success must then have produced exactly the right bytes). Sinks implement poll_write_vectored with writev semantics; event streams include 30-40 KB events queued together.",
    note="Trusted: strict response parser + chunked decoder in harness/src/oracle, scripted sink, simulated async-fs over real files.",
    technique="deterministic simulation of sink and file reader schedules; independent parser round-trip + metamorphic schedule independence"),
  "C07": dict(cat="fault_enumeration", sec="3 C07", engine="stream",
-   text="copy_chunked_async with scripted source and sink: every piece length 1..=65528 (exhaustive for the size line), random/adversarial piece sequences up to 1 MiB with short writes and Pending, a source error enumerated over every chunk boundary, a sink error at every chunk boundary +-1 and drawn offsets. Independent strict decoder; no terminator after a source error; accepted bytes are a prefix of the fault-free output. Errors are drawn from 15 kinds; source errors may be one-shot (the source then goes on), and transient Interrupted errors on either side accept both giving up and a correct retry.",
+   text="copy_chunked_async with scripted source and sink: every piece length 1..=65528 (exhaustive for the size line), random/adversarial piece sequences up to 1 MiB with short writes and Pending, a source error enumerated over every chunk boundary, a sink error at every chunk boundary +-1 and drawn offsets. Independent strict decoder; no terminator after a source error; accepted bytes are a prefix of the fault-free output. Errors are drawn from 15 kinds; source errors may be one-shot (the source then goes on), and transient Interrupted errors on either side accept both giving up and a correct retry. Sinks implement poll_write_vectored with writev semantics.",
    note="Trusted: the chunked decoder (about 100 lines), scripted source/sink.",
    technique="deterministic simulation with enumerated fault points (source/sink errors at every chunk boundary) and exhaustive piece-length sweep"),
  "C08": dict(cat="fault_enumeration", sec="3 C08", engine="stream+conn+server",
-   text="The same fault plans at three levels: serialiser with a sink that fails after exactly k bytes for EVERY k, body files missing / unreadable / read error at offset / truncated; HttpConn::write_response followed by further calls; the full simulated server with server-side write errors, client RST and FIN-and-stop-reading at offsets, body-file faults. R = fault-free serialisation from a second execution; the wire is a prefix of R; after a partial send the write side is shut and nothing else is written; after a zero-byte failure one well-formed 500 is still possible. Error kinds from 15 kinds; one fault in eight is a transient Interrupted error at each level, accepted as give-up (prefix + shutdown rules) or correct retry (exactly the correct bytes), never resent bytes; file bodies longer than recorded.",
+   text="The same fault plans at three levels: serialiser with a sink that fails after exactly k bytes for EVERY k, body files missing / unreadable / read error at offset / truncated; HttpConn::write_response followed by further calls; the full simulated server with server-side write errors, client RST and FIN-and-stop-reading at offsets, body-file faults. R = fault-free serialisation from a second execution; the wire is a prefix of R; after a partial send the write side is shut and nothing else is written; after a zero-byte failure one well-formed 500 is still possible. Error kinds from 15 kinds; one fault in eight is a transient Interrupted error at each level, accepted as give-up (prefix + shutdown rules) or correct retry (exactly the correct bytes), never resent bytes; file bodies longer than recorded. Body files may be truncated by another process while they are read; sinks and the simulated socket implement writev semantics; virtual time may pass at any step of the server stage.",
    note="Trusted: simulator seams, metamorphic reference R (a second run of the same code fault-free), strict parser.",
    technique="deterministic simulation with fault enumeration over every byte offset of the response and every body-source fault"),
  "C09": dict(cat="exploration", sec="3 C09", engine="server",
-   text="The full cross product S x M x L x declared/undeclared x Expect x handler mechanism x cache dir (4608 cells) against the real server in simulation, each cell under several fragmentation/short-I/O/scheduling draws, plus freely sampled S, M with L near the boundaries; clients that send Expect wait for the interim response. Reference decision table + resource invariants read from the simulated file layer. Further stages/cases: 2-4 uploads to ONE path on one connection with per-request limits (with one EINTR on the socket in a share of the runs), declared uploads cut short by the client (never handed over), S up to usize::MAX.",
+   text="The full cross product S x M x L x declared/undeclared x Expect x handler mechanism x cache dir (4608 cells) against the real server in simulation, each cell under several fragmentation/short-I/O/scheduling draws, plus freely sampled S, M with L near the boundaries; clients that send Expect wait for the interim response. Reference decision table + resource invariants read from the simulated file layer. Further stages/cases: 2-4 uploads to ONE path on one connection with per-request limits (with one EINTR on the socket in a share of the runs), declared uploads cut short by the client (never handed over), S up to usize::MAX. Undeclared-length uploads cut by a client reset (ECONNRESET reported once, then end of stream).",
    note="Trusted: simulator seams, decision table in httpgen.rs::model_conn, byte accounting in sim-async-fs. Bodies clamped to 200 KiB. Built with overflow checks so wrap-around is a task panic.",
    technique="deterministic simulation: enumerated configuration cross product x seeded schedules; reference decision table + resource accounting"),
  "C10": dict(cat="fault_enumeration", sec="3 C10", engine="server",
-   text="1-4 concurrent uploads to the real server with a real cache directory, each cut by a drawn fault sequence: client FIN/RST/close at an offset class, disk write/close/create failures, body over the limit, handler outcome after receipt, cache dir removed mid-run, permit revoked, connection-task cancellation at a tape-chosen step. The oracle reads the real directory after every scheduler step and at quiescence. Handler outcomes include an application that keeps a clone of the request body; a second stage answers uploads with an endless event stream whose client stays, leaves or resets. A file may exist only while the server holds an open connection (after an injected task cancellation also while a handler job runs).",
+   text="1-4 concurrent uploads to the real server with a real cache directory, each cut by a drawn fault sequence: client FIN/RST/close at an offset class, disk write/close/create failures, body over the limit, handler outcome after receipt, cache dir removed mid-run, permit revoked, connection-task cancellation at a tape-chosen step. The oracle reads the real directory after every scheduler step and at quiescence. Handler outcomes include an application that keeps a clone of the request body; a second stage answers uploads with an endless event stream whose client stays, leaves or resets. A file may exist only while the server holds an open connection (after an injected task cancellation also while a handler job runs). Uploads of up to 0.7 MB; every upload must end (answered or connection closed).",
    note="Trusted: simulator seams; files attributed to requests by liveness (any request in progress), not by name.",
    technique="deterministic simulation with fault injection inside uploads (disconnect offsets, disk errors, task cancellation); per-step directory invariant"),
  "C11": dict(cat="exploration", sec="3 C11", engine="sse",
-   text="Response::event_stream with the real bounded channel, senders, receiver, response writer and chunked encoder; the writer future is polled by hand between sender steps and only when its waker fired; EVERY interleaving of up to 5 (quick) / 7 (thorough) steps over {writer poll, send, clone, disconnect, drop} for up to 3 senders, plus sampled longer ones with 1-4+ senders, queue overrun, stalled and disappearing clients; event contents over the awkward classes. Independent chunked decoder + independent WHATWG event-stream parser; accepted events must equal dispatched events exactly once, in order; no injected fields; terminating chunk iff all senders gone. Second level through the full simulated server. Event contents include block sizes on the hex-digit boundaries of the chunk-size line and types with line breaks offered to the constructor; a quarter of the failing-sink runs use a transient Interrupted error.",
+   text="Response::event_stream with the real bounded channel, senders, receiver, response writer and chunked encoder; the writer future is polled by hand between sender steps and only when its waker fired; EVERY interleaving of up to 5 (quick) / 7 (thorough) steps over {writer poll, send, clone, disconnect, drop} for up to 3 senders, plus sampled longer ones with 1-4+ senders, queue overrun, stalled and disappearing clients; event contents over the awkward classes. Independent chunked decoder + independent WHATWG event-stream parser; accepted events must equal dispatched events exactly once, in order; no injected fields; terminating chunk iff all senders gone. Second level through the full simulated server. Event contents include block sizes on the hex-digit boundaries of the chunk-size line and types with line breaks offered to the constructor; a quarter of the failing-sink runs use a transient Interrupted error. Further: a client that half-closes right after the request and keeps reading; a sustained stage (300-700 events, queue never empty).",
    note="Trusted: the SSE parser (oracle/sse.rs), chunked decoder. Two genuine defects are recorded as known findings (blank line pinned by the test suite; events larger than the read buffer) and matched by clause + detail.",
    technique="deterministic simulation of sender/writer interleavings with lost-wake-up detection; independent EventSource parser as oracle"),
  "C12": dict(cat="exploration", sec="3 C12", engine="server",
-   text="max_conns 1-4 with 2-3x as many clients ending in every listed way, held handlers, EMFILE/abort bursts from the simulated listener, task cancellation. Per-step invariant (connections being serviced and handlers in flight <= max_conns); conservation decided by quiescence: after any history max_conns+1 fresh connections with held handlers - exactly max_conns reach their handler. EVERY slot-pool API sequence to depth 6 (quick) / 8 (thorough) plus sampled deeper ones against a counter model; a stage with a stopped global logger installed while accept failures are logged. Accept failures cover a dozen further transient errnos; half of the clients of server-ended connections stay connected and silent, some do not read the error response for a while with a 64-byte socket buffer.",
+   text="max_conns 1-4 with 2-3x as many clients ending in every listed way, held handlers, EMFILE/abort bursts from the simulated listener, task cancellation. Per-step invariant (connections being serviced and handlers in flight <= max_conns); conservation decided by quiescence: after any history max_conns+1 fresh connections with held handlers - exactly max_conns reach their handler. EVERY slot-pool API sequence to depth 6 (quick) / 8 (thorough) plus sampled deeper ones against a counter model; a stage with a stopped global logger installed while accept failures are logged. Accept failures cover a dozen further transient errnos; half of the clients of server-ended connections stay connected and silent, some do not read the error response for a while with a 64-byte socket buffer. One more ending: an event stream the application keeps open (it holds its slot).",
    note="Trusted: simulator seams; unbounded accept backlog and blocking pool.",
    technique="deterministic simulation with accept-fault injection; per-step limit invariant + conservation probe decided by quiescence"),
  "C13": dict(cat="exploration", sec="3 C13", engine="server",
-   text="Seeded simulation of the real server with a revocable permit; clients in mixed phases never close by themselves; the revocation is one more scheduler action placed at a tape-chosen step, so it lands at every await point of the accept loop and connection tasks, including 'all slots held by idle connections'; a stage in which every accept fails with EMFILE (virtual 500 ms back-off) and the server must still stop within a bounded virtual time. Safety clauses on the event history; liveness decided by quiescence, not by a timeout. A request is in flight from the first call of its handler (uploads in progress at revocation must complete); transient accept failures of a dozen errnos and a client that resets in the listen backlog are part of the runs.",
+   text="Seeded simulation of the real server with a revocable permit; clients in mixed phases never close by themselves; the revocation is one more scheduler action placed at a tape-chosen step, so it lands at every await point of the accept loop and connection tasks, including 'all slots held by idle connections'; a stage in which every accept fails with EMFILE (virtual 500 ms back-off) and the server must still stop within a bounded virtual time. Safety clauses on the event history; liveness decided by quiescence, not by a timeout. A request is in flight from the first call of its handler (uploads in progress at revocation must complete); transient accept failures of a dozen errnos and a client that resets in the listen backlog are part of the runs. In a fifth of the runs one handler running at revocation never returns (the stopped signal must not wait for it); virtual time may pass at any step.",
    note="Trusted: simulator seams and the quiescence detector. 'Bounded time' = before quiescence.",
    technique="deterministic simulation: revocation injected at seeded scheduler steps; history checks + liveness by quiescence"),
  "C18": dict(cat="exploration", sec="3 C18", engine="threads",
-   text="1-8 real OS threads parked and released one at a time by the seeded scheduler (the choice of who runs is the tape's); programs over the whole logging API incl. install / drop guard / stopped logger; a sequential reference model executed in baton order is compared after every operation (exactly-once routing, tag order and isolation, wrapper rules); the stdout default is observed through a pipe on fd 1. Calls carry up to 70 tags; handler errors carry failure and non-failure statuses.",
+   text="1-8 real OS threads parked and released one at a time by the seeded scheduler (the choice of who runs is the tape's); programs over the whole logging API incl. install / drop guard / stopped logger; a sequential reference model executed in baton order is compared after every operation (exactly-once routing, tag order and isolation, wrapper rules); the stdout default is observed through a pipe on fd 1. Calls carry up to 70 tags; handler errors carry failure and non-failure statuses. The logger guard is dropped normally or by an unwind that is caught further up.",
    note="Trusted: the reference model; interleavings INSIDE one logging call are not explored (one critical section per call today).",
    technique="deterministic simulation of caller-thread schedules (baton-passing real threads); sequential reference model"),
  "C19": dict(cat="exploration", sec="3 C19", engine="logwriter",
-   text="The real writer thread and real files, built with the guarded hooks so the thread reads a simulated clock and acknowledges each event; lock-step histories of up to 20000 events over the configuration space with clock gaps up to days, pre-existing and look-alike files, and restarts (graceful, kill, kill with a torn tail). Invariants after every event (oldest-first deletion, per-file size/age, total size incl. earlier runs, keep-age, unrelated files) and content checks at every rotation (whole, consecutive lines ending at the newest event). File-set API vs a reference model. Events may be larger than a file and than the keep budget, singly and back to back; files of earlier runs may share one mtime; files are identified by inode (names are reused within a second).",
+   text="The real writer thread and real files, built with the guarded hooks so the thread reads a simulated clock and acknowledges each event; lock-step histories of up to 20000 events over the configuration space with clock gaps up to days, pre-existing and look-alike files, and restarts (graceful, kill, kill with a torn tail). Invariants after every event (oldest-first deletion, per-file size/age, total size incl. earlier runs, keep-age, unrelated files) and content checks at every rotation (whole, consecutive lines ending at the newest event). File-set API vs a reference model. Events may be larger than a file and than the keep budget, singly and back to back; files of earlier runs may share one mtime; files are identified by inode (names are reused within a second). Backlogs: 2-90 events queue up behind the writer (parked after an event through a guarded hook) and are released together; a fifth of the runs use a './'-relative prefix.",
    note="Trusted: the two guarded hooks (clock, event acknowledgement), tmpfs. Disk errors are not injected (no seam; not in the property).",
    technique="deterministic simulation: simulated clock + lock-step writer thread via guarded hooks; restart/crash points; invariants over the recorded history"),
 }
